@@ -56,6 +56,7 @@ structure Bus where
   pending : List Pending := []      -- newest first (`bus_expire_list_add` prepends)
   limits : Limits := {}
   policy : Policy := {}
+  minted : List Bytes := []         -- ghost: every unique name ever handed out, newest first
   deriving Inhabited
 
 inductive Out
